@@ -58,7 +58,7 @@ fn norm(v: Vec<Item>) -> Vec<Item> {
 pub fn check_query(c: &QueryCase) -> CaseResult {
     let ctl = Ctl::new();
     let n = HN::new();
-    let mut store: TrackStore<HA, HM, HO, HN> = TrackStore::new(HM::new(ctl.clone()), HA::new(ctl.clone()), n.clone(), c.shards);
+    let mut store: QuietDrop<TrackStore<HA, HM, HO, HN>> = QuietDrop::new(TrackStore::new(HM::new(ctl.clone()), HA::new(ctl.clone()), n.clone(), c.shards));
     let mut model: BTreeMap<u64, MTrack> = BTreeMap::new();
     for d in &c.stored {
         if model.contains_key(&d.id) {
